@@ -310,7 +310,9 @@ def ns_shadow(j: Job) -> bool:
             ch = j.chains.get(tkey(x)) or []
             for i in range(1, len(ch) + 1):
                 declared.add(tuple(ch[:i]))
-        roots = set()
+        # first components of the qualified names the header of d emits: the templates' own std:: (and nunavut::support:: with
+        # serialization), and the root namespace of every referenced composite
+        roots = {'std'} | (set() if j.cfg['pod'] else {'nunavut'})
         for a in d['attrs']:
             r = comp_refs(a)
             if r and j.chains.get(r):
@@ -319,6 +321,19 @@ def ns_shadow(j: Job) -> bool:
             for m in range(len(chain), 0, -1):
                 if tuple(chain[:m]) + (r,) in declared:
                     return True
+        # (b) class scope: the allocator-aware flavours declare `using allocator_type` in every class
+        if (j.cfg.get('std') or '').endswith('pmr') and 'allocator_type' in roots:
+            return True
+        # (c) class scope: _traits_::TypeOf declares `using <field> = <type>` per field; a field of class type (composite, array) named
+        #     like the root namespace of a composite referenced by a LATER field of the same section hides that root
+        for sec in d.get('fields', []):
+            for i, (name, enc) in enumerate(sec):
+                if enc[0] not in 'AVC':
+                    continue
+                for _, later in sec[i + 1:]:
+                    r = comp_refs(later)
+                    if r and r.split('.')[0] == name:
+                        return True
     return False
 
 
